@@ -143,7 +143,8 @@ def main(argv=None):
             from checks.history import validate_rels
             from harness.runner import pmap
 
-            ccases = [dict(c, seed=args.seed * 11 + i, nargs=4) for i, c in enumerate(cases[: (60 if args.tier == "quick" else 600)])]
+            gen_only = [c for c in cases if c["tid"].startswith("g")]
+            ccases = [dict(c, seed=args.seed * 11 + i, nargs=4) for i, c in enumerate(gen_only[: (80 if args.tier == "quick" else 800)])]
             rel_lines, replays = [], {}
             for kind, r in pmap(exec_clean_case, ccases):
                 if kind == "err":
